@@ -1,5 +1,5 @@
-import Solvor.Ds.Model
-/-! Ds: property theorems only (helper lemmas live in Lemmas.lean). -/
-namespace Solvor.Ds
-
-end Solvor.Ds
+import Solvor.Ds.FenwickTheorems
+import Solvor.Ds.UFTheorems
+/-! Ds: the property theorems of C20 are `fenwick_refines`, `fenwick_refines_zeros`
+(FenwickTheorems.lean) and `uf_refines`, `qf_count_is_classes`, `qf_union_classes`
+(UFTheorems.lean). -/
